@@ -37,7 +37,7 @@ Leaves == Reps \o <<
    R(0, 0), R(-5, -1), R(1, -12), R(1, -13), R(16, -13), R(-4, -13), R(123456789, -7), R(314159, -5), R(1, 10), R(-25, -2),
    BR("-1.5e+300"), BR("1.7976931348623157e+308"), BR("1e+15"), BR("9e+18"), BR("1e+19"),
    N(<<35>>), N(<<47, 40, 41>>), N(<<60, 62, 91, 93, 123, 125, 37>>), N(<<128, 255>>), N(<<49>>),
-   N(<<110, 117, 108, 108>>), N(<<82>>), N(<<1, 127>>), N(<<65, 35, 50, 48>>),
+   N(<<110, 117, 108, 108>>), N(<<82>>), N(<<1, 127>>), N(<<65, 35, 50, 48>>), N(<<65, 194, 160, 66>>), N(<<226, 128, 168, 67>>),
    S(<<>>), S(<<40>>), S(<<41>>), S(<<92>>), S(<<97, 40, 98, 41, 99>>), S(<<13, 10>>), S(<<0, 128, 255>>),
    S(<<92, 49>>), S(<<49, 32, 48, 32, 82>>), S(<<62, 62>>), S(<<93>>), S(<<92, 41>>), S(<<40, 92>>),
    H(<<0>>), H(<<255, 254>>), H(<<10>>),
